@@ -368,6 +368,8 @@ def run(ctx):
     _staterror(ctx, r7, repo)
     _staterror_widths(ctx, r7, repo)
     _constraint_tables(ctx, r3, repo)
+    r9 = ctx.rule("C02.R9", "TEMPLATE: _ConstraintModel built and evaluated END TO END (real combined constraints, ParamViewer, _TensorViewer, probability classes; list tensors; backend log-densities as opaque atoms) on five parameter sets whose parameter order differs from the auxiliary-data order and whose Gaussian and Poisson sets alternate: logpdf(aux, pars) is exactly one Normal(aux_k | theta_k, sigma_k or 1) per Gaussian component plus one Poisson(aux_k | theta_k * factor_k) per Poisson component, each pairing the parameter component with the auxiliary datum at the position the configuration assigns to it -- unbatched and for 2 batch rows", "TEMPLATE", floor=2)
+    _constraint_template(ctx, r9, repo)
 
     # ---------------------------------------------------------------- R8
     red = repo.func(PU, "reduce_paramsets_requirements")
@@ -575,3 +577,81 @@ def _constraint_tables(ctx, rid, repo):
                     ctx.violated(rid, init, f"{cname} tables [batch_size={bs}]", f"the constant tables of the {kind} constraint do not pair each constrained parameter with its own auxiliary-data position and its own " + ("width (parset.sigmas, else 1)" if kind == "normal" else "rate factor (parset.factors, not the auxiliary data, which a measurement may override)"), expected=f"names={want_names} data={want_data} {tab_attr}={[want_tab] * want_rows} access={want_acc}", found=f"names={seen.get('names')} data={got_data} {tab_attr}={got_tab} access={got_acc}")
             except (Undecided, KeyError, TypeError, ValueError, IndexError, AttributeError) as e:
                 ctx.unrecognised(rid, init, f"{cname}.__init__ [batch_size={bs}]", f"not interpretable: {type(e).__name__}: {e}")
+
+
+def _constraint_template(ctx, rid, repo):
+    from ..alg import NotHandled
+    from . import viewers
+    at, c = Poly.atom, Poly.const
+
+    def sl(a_, b_):
+        return Obj("slice", {"start": c(a_), "stop": c(b_)})
+
+    def dist(kind):
+        return lambda a, k: Obj(kind, {"args": list(a)})
+
+    def log_prob(recv, a, k):
+        if not (isinstance(recv, Obj) and recv.name in ("normal_dist", "poisson_dist")):
+            raise NotHandled()
+
+        def rec(v, ps):
+            if isinstance(v, (list, tuple)):
+                return [rec(v[i], [(p_[i] if isinstance(p_, (list, tuple)) else p_) for p_ in ps]) for i in range(len(v))]
+            return fn(recv.name[:-5] + "_logpdf", to_poly(v), *[to_poly(p_) for p_ in ps])
+
+        return listnp.wrap(rec(a[0], recv.attrs["args"]))
+
+    psets = {
+        "g1": Obj("g1", {"n_parameters": c(2), "pdf_type": "normal", "sigmas": [at("s0"), at("s1")], "auxdata": [at("ng0"), at("ng1")]}, closed=True),
+        "p1": Obj("p1", {"n_parameters": c(2), "pdf_type": "poisson", "factors": [at("f0"), at("f1")], "auxdata": [at("np0"), at("np1")]}, closed=True),
+        "g2": Obj("g2", {"n_parameters": c(1), "pdf_type": "normal", "auxdata": [at("ng2")]}, closed=True),
+        "p2": Obj("p2", {"n_parameters": c(1), "pdf_type": "poisson", "factors": [at("f2")], "auxdata": [at("np2")]}, closed=True),
+    }
+    slices = {"mu": (0, 1), "p1": (1, 3), "g1": (3, 5), "p2": (5, 6), "g2": (6, 7)}  # parameter order != auxiliary order
+    aux_order = ["g1", "p1", "g2", "p2"]
+    cmc = repo.cls(PDF, "_ConstraintModel")
+    for m_ in cmc.methods.values():
+        ctx.touch(m_)
+    for bs in (None, 2):
+        site = f"{PDF}::_ConstraintModel end to end [batch_size={bs}]"
+        try:
+            w = viewers.world(repo, {"normal_dist": dist("normal_dist"), "poisson_dist": dist("poisson_dist"), ".log_prob": log_prob, "param_set": lambda a, k: psets[a[0]]})
+            w.add_class(cmc)
+            for cn in ("gaussian_constraint_combined", "poisson_constraint_combined"):
+                w.add_class(repo.cls(CON, cn))
+            pattrs = {}
+            for cn in ("_SimpleDistributionMixin", "Poisson", "Normal", "Independent", "Simultaneous"):
+                k_ = repo.cls(PROB, cn)
+                w.add_class(k_)
+                pattrs[cn] = PyFunc(lambda a, kw, k_=k_: w.new(k_, a, kw), cn)
+            w.module_env["prob"] = Obj("prob", pattrs)
+            cfg = Obj("config", {"npars": c(7), "par_map": {n: {"slice": sl(*se)} for n, se in slices.items()}, "auxdata": [at(f"nominal_aux{j}") for j in range(6)], "auxdata_order": list(aux_order)})
+            cm = w.new(cmc, [cfg, None if bs is None else c(bs)], {})
+            rows = bs or 1
+            tname = (lambda r, j: f"theta{j}") if bs is None else (lambda r, j: f"theta{r}_{j}")
+            xname = (lambda r, j: f"aux{j}") if bs is None else (lambda r, j: f"aux{r}_{j}")
+            pars = listnp.T([at(tname(0, j)) for j in range(7)]) if bs is None else listnp.T([[at(tname(r, j)) for j in range(7)] for r in range(rows)])
+            aux = listnp.T([at(xname(0, j)) for j in range(6)]) if bs is None else listnp.T([[at(xname(r, j)) for j in range(6)] for r in range(rows)])
+            out = w.call_method(cm, "logpdf", [aux, pars])
+            want = []
+            for r in range(rows):
+                tot, off = Poly(), 0
+                for n in aux_order:
+                    ps = psets[n]
+                    ncomp = int(ps.attrs["n_parameters"].const_value())
+                    for i in range(ncomp):
+                        th, x = at(tname(r, slices[n][0] + i)), at(xname(r, off + i))
+                        if ps.attrs["pdf_type"] == "normal":
+                            sig = ps.attrs["sigmas"][i] if "sigmas" in ps.attrs else c(1)
+                            tot = tot + fn("normal_logpdf", x, th, sig)
+                        else:
+                            tot = tot + fn("poisson_logpdf", x, th * ps.attrs["factors"][i])
+                    off += ncomp
+                want.append(tot)
+            got = [to_poly(out)] if bs is None else [to_poly(x) for x in out]
+            if len(got) == len(want) and all(g_ == w_ for g_, w_ in zip(got, want)):
+                ctx.holds(rid, site, f"{want[0]}")
+            else:
+                ctx.violated(rid, cmc.methods["logpdf"], f"constraint log-density [batch_size={bs}]", "the constraint log-density is not the HistFactory template: one Normal(aux_k | theta_k, width_k) per Gaussian-constrained component and one Poisson(aux_k | theta_k factor_k) per Poisson-constrained component, each parameter paired with the auxiliary datum at its own position", expected=str([str(x) for x in want]), found=str([str(x) for x in got]))
+        except (Undecided, KeyError, TypeError, ValueError, IndexError, AttributeError) as e:
+            ctx.unrecognised(rid, cmc, f"_ConstraintModel end to end [batch_size={bs}]", f"not interpretable: {type(e).__name__}: {e}")
